@@ -69,6 +69,15 @@ def gen(tier, rng):
     for nff in (16843010, 16843011, 16843264, 33686018):
         for pre, post in (("-", "fe0080"), ("05", "0180")):
             cases.append("!seibig %s %d %s 1" % (pre, nff, post))
+    # several large payloads in one NAL in non-monotonic size order (the scratch buffer is reused from message to message):
+    # sizes around decimal and binary round numbers
+    for sizes in ([12000, 11000], [30000, 9, 10000], [10000, 10000], [9999, 10001, 10000], [70000, 65536, 4096, 65537],
+                  [1000, 1500, 999, 1001], [100000, 50000, 99999]):
+        msgs = [(rng.choice([0, 1, 5, 200]), bytes(rng.randrange(1, 255) for _ in range(n))) for n in sizes]
+        cases.append("sei raw:%s 2" % hx(enc_msgs(msgs)))
+        if sum(sizes) < 40000:      # the model's ByteReader is quadratic in the NAL length
+            nal = bytes([0x06]) + escape(enc_msgs(msgs))
+            cases.append("sei %s 2" % nal_src([nal[:len(nal) // 3], nal[len(nal) // 3:]], True))
     # payloads around 2^k bytes (k = 12..16, thorough ..20), complete and cut short at / just past the power of two
     for k in ([12, 16] if tier == "quick" else [12, 13, 15, 16, 17, 18, 20]):
         for size in ((1 << k) - 1, 1 << k, (1 << k) + 1, (1 << k) + 4000):
